@@ -77,6 +77,9 @@ def roundtrip_relation(objects: Objects, o: Any, tv: TV, locus: str = "$", ctx: 
     if isinstance(tv, P):
         if not jeq(o, tv.v):
             out.append(("changed", locus, ctx, f"{short(tv.v)} became {short(o)}"))
+        elif isinstance(tv.v, int) and not isinstance(tv.v, bool) and isinstance(o, float) and tv.how != ("base", "decimal"):
+            # numerically equal is not enough at an integer position: 5 must not come back as 5.0 (another JSON text)
+            out.append(("changed", locus, ctx, f"integer {short(tv.v)} written as {short(o)}"))
         return out
     if isinstance(tv, A):
         if not jeq_exact(o, tv.v):
